@@ -84,6 +84,10 @@ func (c07) Plan(tier string, seed int64) []core.Scenario {
 	for i := 0; i < nw; i++ {
 		out = append(out, core.Sc("w6").WithN("variant", i%4).WithN("noise", i%3))
 	}
+	for i := 0; i < 2; i++ {
+		out = append(out, core.Sc("mixed-sizes").WithN("kb", []int{1200, 2100}[i]).WithN("noise", i))
+		out = append(out, core.Sc("sub-behind-big").WithN("mb", 24).WithN("subs", 4+4*i).WithN("noise", i))
+	}
 	for i := 0; i < 3; i++ {
 		out = append(out, core.Sc("unencodable").WithN("at", []int{0, 5, 11}[i]).WithN("noise", i%3))
 		out = append(out, core.Sc("revsub-reconnect").WithN("pre", i%2).WithN("noise", i%3))
@@ -107,6 +111,10 @@ func (p c07) Run(sc core.Scenario) core.Result {
 		p.unencodable(sc, r)
 	case "revsub-reconnect":
 		p.revSubReconnect(sc, r)
+	case "mixed-sizes":
+		p.mixedSizes(sc, r)
+	case "sub-behind-big":
+		p.subBehindBig(sc, r)
 	}
 	return r.Result()
 }
